@@ -405,6 +405,9 @@ class Base(_BaseClass):
         the current value of self.__expected
         """
 
+        if new is None:
+            new = {}
+
         def ATKEYWORD(expected, seq, token, tokenizer=None):
             "default impl for unexpected @rule"
             if expected != 'EOF':
@@ -518,6 +521,9 @@ class Base2(Base, _NewBase):
         some have no expectation like S or COMMENT, so simply return
         the current value of self.__expected
         """
+
+        if new is None:
+            new = {}
 
         def ATKEYWORD(expected, seq, token, tokenizer=None):
             "default impl for unexpected @rule"
